@@ -620,7 +620,10 @@ func (tree *MutableTree) enableFastStorageAndCommit() error {
 		if err != nil {
 			return err
 		}
-		if latestVersion != tree.version {
+		if latestVersion == 0 {
+			// every version has been deleted: the index of an empty store is empty
+			source = &ImmutableTree{ndb: tree.ndb, skipFastStorageUpgrade: tree.skipFastStorageUpgrade}
+		} else if latestVersion != tree.version {
 			if source, err = tree.GetImmutable(latestVersion); err != nil {
 				return err
 			}
